@@ -84,7 +84,7 @@ var wkinds = []wkind{
 
 type desc struct {
 	W       []int `json:"w"`       // construct kinds, outermost first
-	Payload []int `json:"payload"` // tokens: 0 a=v 1 var a=v 2 read a 3 b=v 4 var b=v 5 read b 6 func a() { } 7 a, b = [v, w]
+	Payload []int `json:"payload"` // tokens: 0 a=v 1 var a=v 2 read a 3 b=v 4 var b=v 5 read b 6 func a() { } 7 a, b = [v, w] 8 var a, b = [v, w] 9 var a, b = v, w
 	Exit    int   `json:"exit"`    // 0 fall through 1 break 2 continue 3 return 4 throw (caught by an outer try)
 	Pre     int   `json:"pre"`     // bit 0: a = 1 at top level, bit 1: b = 2 at top level
 }
@@ -348,6 +348,14 @@ func payloadStmts(p []int) []*stmt {
 			out = append(out, &stmt{Op: opUnpack, N: int64(21 + 2*i)})
 			continue
 		}
+		if t == 8 || t == 9 {
+			st := &stmt{Op: opVarMulti, N: int64(31 + 2*i)}
+			if t == 8 {
+				st.Tag = "list"
+			}
+			out = append(out, st)
+			continue
+		}
 		if t == 6 {
 			// a named function declaration: an expression statement that binds a name
 			out = append(out, &stmt{Op: opFunc, Name: "a"})
@@ -432,10 +440,10 @@ func payloads(maxLen int) [][]int {
 	// block consists of expression statements only)
 	// token 7, `a, b = [v, w]`: alone and followed by a read of either name
 	if maxLen >= 1 {
-		out = append(out, []int{6}, []int{7})
+		out = append(out, []int{6}, []int{7}, []int{8}, []int{9})
 	}
 	if maxLen >= 2 {
-		out = append(out, []int{6, 2}, []int{6, 5}, []int{2, 6}, []int{5, 6}, []int{7, 2}, []int{7, 5})
+		out = append(out, []int{6, 2}, []int{6, 5}, []int{2, 6}, []int{5, 6}, []int{7, 2}, []int{7, 5}, []int{8, 2}, []int{8, 5}, []int{9, 2}, []int{9, 5}, []int{0, 8}, []int{3, 8})
 	}
 	return out
 }
